@@ -8,12 +8,14 @@ import verif_probes as vp
 
 LOG: list = []      # observations, in execution order
 EXEC: list = [0]    # number of model calls executed (any probe of this module)
+KEEP: list = []     # the detector objects seen (kept alive so that id() identifies the run an observation belongs to)
 
 SENTINEL = -1       # "holds something that is not a constant integer frame" (only expected in junk)
 
 
 def reset():
     LOG.clear()
+    KEEP.clear()
     EXEC[0] = 0
 
 
@@ -85,7 +87,10 @@ def rp_public(detector):
 
 def observe(detector, where="first"):
     EXEC[0] += 1
-    LOG.append(dict(where=where, clock=vp.clock(detector), clock_rp=clock_rp(detector), buckets=buckets(detector)))
+    if not any(d is detector for d in KEEP):
+        KEEP.append(detector)
+    LOG.append(dict(where=where, clock=vp.clock(detector), clock_rp=clock_rp(detector), buckets=buckets(detector),
+                    det=id(detector), rp_times=[_hx(t) for t in detector.readout_properties.times]))
 
 
 def _source():
